@@ -45,6 +45,13 @@ def rebuild_case(draw, tier, prepopulate=False, partial_decoys=False):
             e = {"place": draw(placement(nsearch)), "decoy": None, "pre": "none"}
             if f["size"] > 0 and draw(st.sampled_from([True] + [False] * 2)):
                 e["decoy"] = draw(placement(nsearch))
+                # the decoy (or the intact copy) may sit exactly where the torrent itself would put the file:
+                # <search dir>/<torrent name>/<relative path> - a stale earlier download next to the good copy elsewhere (round 8)
+                where = draw(st.sampled_from(["decoy", "decoy", "real", None, None, None, None, None]))
+                if where == "decoy":
+                    e["decoy"] = dict(e["decoy"], inplace=True)
+                elif where == "real":
+                    e["place"] = dict(e["place"], inplace=True)
                 # 'all': every byte differs (C14's decoy); the partial kinds agree with the real file in some pieces
                 e["decoy_kind"] = draw(st.sampled_from(["all", "all", "all", "same-first-piece", "same-tail", "one-byte"])) if partial_decoys else "all"
             if prepopulate:
@@ -64,6 +71,15 @@ def rebuild_case(draw, tier, prepopulate=False, partial_decoys=False):
                 files[0]["decoy"] = files[0]["decoy"] or draw(placement(nsearch))
                 files[0].setdefault("decoy_kind", "all")
                 files[0]["real_absent"] = True
+        if prepopulate and not t["single"] and len(t["files"]) >= 2 and draw(st.sampled_from([True] + [False] * 7)):
+            # a listed file named like a staging / backup sibling of another listed file (X and X.part, X.tmp, X~ ...): the sibling
+            # already complete in the destination, X still to be placed, no other copy of the sibling among the sources (round 8)
+            a, b = t["files"][-2], t["files"][-1]
+            newpath = a["path"][:-1] + [a["path"][-1] + draw(st.sampled_from([".part", ".tmp", "~", ".bak", ".new", ".!qB", ".1"]))]
+            if a["size"] > 0 and b["size"] > 0 and all(f["path"] != newpath for f in t["files"]) and len(newpath[-1]) < 200:
+                b["path"] = newpath
+                files[-1].update({"pre": "correct", "real_absent": True, "decoy": None})
+                files[-2]["pre"] = "none"
         torrents.append({"tree": t, "P": P, "creator": creator, "files": files, "align": align})
     unrelated = draw(st.lists(st.tuples(placement(nsearch), trees.name_component(), st.integers(0, 3000)), max_size=3))
     case = {"torrents": torrents, "nsearch": nsearch,
@@ -96,6 +112,13 @@ def decoy_bytes(data, kind="all", P=16384):
 
 def basename_of(tree, f):
     return tree["name"] if tree["single"] else f["path"][-1]
+
+
+def _resolve(place, tree, f):
+    """Placement with the sub-directory the torrent itself would use, if asked for."""
+    if place.get("inplace"):
+        return dict(place, sub=[] if tree["single"] else [tree["name"]] + list(f["path"][:-1]))
+    return place
 
 
 def _place(base_dirs, place, name, data, taken):
@@ -157,12 +180,12 @@ def build(scr, case):
             idx = len(placed_at_idx.setdefault(ti, []))
             placed_at_idx[ti].append(1)
             if not e.get("real_absent"):
-                placed_at[(ti, idx)] = _place(search, e["place"], name, data, taken)
+                placed_at[(ti, idx)] = _place(search, _resolve(e["place"], tree, f), name, data, taken)
                 sources.setdefault(name, []).append(data)
             if e["decoy"] is not None:
                 kind = e.get("decoy_kind", "all")
                 dd = decoy_bytes(data, kind, tor["P"])
-                _place(search, e["decoy"], name, dd, taken)
+                _place(search, _resolve(e["decoy"], tree, f), name, dd, taken)
                 if dd == decoy_bytes(data):
                     decoys.append((name, dd))          # every byte differs
                 else:
